@@ -215,6 +215,17 @@ CLAIMED = {
         note=TB + 'Closed under the global context. Species identity = canonical SMILES of the H-explicit graph (the implementation\'s '
              'sub-structure duplicate test is assumed to coincide on uncharged pools); unimolecular rules.',
         technique='Coq invariant proof over the work-list iterations + vm_compute run on the harness-computed closure table'),
+    'C15': dict(
+        text='Machine-checked proof (Coq) by induction over the operation list, for arbitrary (abstract, pure) decomposition / estimation / '
+             'elemental-entropy functions: only a merge changes any library\'s data; descriptors and every property evaluated without the elemental '
+             'reference are the same after ANY merge-free history as on the fresh state; with the elemental reference the answer uses the '
+             'library\'s last decomposed molecule - history-freedom is formally refuted there (known finding). Differential test on every run: '
+             'random interleavings of load / decompose / estimate+evaluate / fingerprint over five libraries and two objects each, every result '
+             'compared with the same single operation in a fresh process.',
+        design='5 / C15',
+        note=TB + 'Closed under the global context. Only the modelled state (contents, last molecule) is covered by the theorems; state inside '
+             'RDKit / NumPy / pmutt and the module-level registries is covered by the differential test only.',
+        technique='Coq induction over operation histories of a state-machine model + fresh-process differential oracle'),
 }
 
 PENDING_REASON = 'check not built yet in this round (design in DESIGN.md section 5); not claimed until it runs'
